@@ -2,12 +2,14 @@ SPECIFICATION Spec
 CONSTANTS
   Acct = {"a1", "a2"}
   Wallet = {"w1"}
-  Amt = {1, 2}
+  Passive = {"p1"}
+  InitTok = 1
+  Amt = {1}
   InitBal = 3
   MaxH = 2
   MaxTx = 2
   MaxCoins = 2
-INVARIANTS Conservation NoNegative SpentOnce SpentMarked
+INVARIANTS Conservation TokenConservation NoNegative SpentOnce SpentMarked
 ACTION_CONSTRAINT Edge
 VIEW View
 CHECK_DEADLOCK FALSE
